@@ -295,8 +295,8 @@ fn main() {
             // many rules calling one cacheable function with many distinct / large look-alike arguments: each rule's outcome is what
             // the rule gives on its own, however many other calls the evaluation has seen
             let mut rng2 = rng::Rng::new(o.seed);
-            let many: Vec<rs::RsCase> = streams::cache_cases(&mut rng2, false).into_iter().filter(|c| c.tag.starts_with("many-") || c.tag.starts_with("large-args") || c.tag == "failpattern").collect();
-            run_rs_stream(&o, &mut rep, "many-calls", "40 / 200 / 1000 distinct arguments of one cacheable function called twice in opposite orders (one rule, and one call per rule over 400 rules); large arguments of equal length differing at one position; every subset of failing invocations of cacheable and non-cacheable functions called with equal arguments from different rules (a rule's outcome is what the rule gives when it is its turn, whatever failed before)", false, many, "full");
+            let many: Vec<rs::RsCase> = streams::cache_cases(&mut rng2, false).into_iter().filter(|c| c.tag.starts_with("many-") || c.tag.starts_with("large-args") || c.tag == "failpattern" || c.tag == "pair").collect();
+            run_rs_stream(&o, &mut rep, "many-calls", "every ordered pair of look-alike arguments (equal under ==, under a looser rendering, under a lossy projection, or once flattened) passed to one cacheable function by two rules; 40 / 200 / 1000 distinct arguments of one cacheable function called twice in opposite orders (one rule, and one call per rule over 400 rules); large arguments of equal length differing at one position; every subset of failing invocations of cacheable and non-cacheable functions called with equal arguments from different rules (a rule's outcome is what the rule gives when it is its turn, whatever failed before)", false, many, "full");
             run_rs_stream(&o, &mut rep, "cells-as-rules", "every operator over the extremes of every type (all ordered pairs of ~50 values, mixed types included: an i128 beyond 96 bits next to a decimal, an instant next to the largest span …), 40 such rules per ruleset between two succeeding rules: a failing rule yields its own error outcome and the other 41 outcomes are unchanged", true, streams::cells_as_rules_cases(), "full");
             serval::run_evaluate(&mut rep, &o.driver, o.workers, o.tier == "thorough", o.seed);
         }
